@@ -14,5 +14,14 @@ func main() {
 		fmt.Println(checks.DebugSyncSession(os.Args[2], seed))
 		return
 	}
+	if os.Args[1] == "gossip" {
+		seed, _ := strconv.ParseInt(os.Args[2], 10, 64)
+		only := ""
+		if len(os.Args) > 3 {
+			only = os.Args[3]
+		}
+		fmt.Println(checks.DebugGossip(seed, only))
+		return
+	}
 	fmt.Println(checks.DebugDatagram(os.Args[1]))
 }
